@@ -43,3 +43,10 @@ Definition cap_target (pc : list Q) (eps suc : Q) : list Q :=
 Definition check_c01 (phis pc : list Q) (eps suc tol : Q) : bool :=
   (Nat.eqb (length phis) (length pc)) &&
   check_resp_mono phis (cap_target pc eps suc) (Qmult (100 # 1) tol).
+
+(* diagnostics: the certified upper bound (scaled by 2^P) of the coefficient 1-norm of
+   (identity part of U(phis)) - F *)
+Definition ipoly_norm (phis : list Q) (F : lpoly Q) : option Z :=
+  match resp_elem phis with Some g => norm1_diff (la_I g) F | None => None end.
+Definition c01_norm (phis pc : list Q) (eps suc : Q) : option Z :=
+  match target_F (cap_target pc eps suc) with Some F => ipoly_norm phis F | None => None end.
